@@ -46,6 +46,11 @@ func main() {
 			usage()
 		}
 		common.Exit(runReplay(os.Args[2]))
+	case "listcases":
+		// vsim listcases <prop> <n>: the initial packages of the first n histories of engine C (no execution)
+		var n int
+		fmt.Sscan(os.Args[3], &n)
+		listCases(os.Args[2], n)
 	case "debugcase":
 		common.Exit(runDebugCase(os.Args[2], os.Args[3]))
 	case "selftest":
